@@ -663,6 +663,8 @@ class Parser:
             return ('assign', '+=' if e[1] == '++' else '-=', e[2], ('int', 1), ln)
         if e[0] == 'mcall' and e[2] == 'push_back' and len(e[3]) == 1:
             return ('push', e, ln)
+        if e[0] == 'call':
+            return ('callstmt', e, ln)
         raise self.err(f'expression statement without effect in the subset: {e[0]}')
 
 
@@ -964,6 +966,9 @@ class Translator:
                 raise self.err(ln, f'`{v}` is not a modelled struct local here')
             a = self.coerce(self.expr(e[2], env, ln), 'int', ln)
             return (f'({lname(v)}.getD (Int.toNat ({a})) 0)', 'int')
+        if k == 'index' and e[1][0] == 'var' and env.get(e[1][1]) == 'arr':
+            a = self.coerce(self.expr(e[2], env, ln), 'int', ln)
+            return (f'({lname(e[1][1])}.getD (Int.toNat ({a})) ({self.spec.get("arr_default", "0")}))', 'int')
         if k in ('index', 'mcall', 'member'):
             hit, key = self.accessor(e)
             if hit is None:
@@ -1282,6 +1287,8 @@ class Translator:
             return e[1]
         if e[0] == 'index' and self._path(e[1]) in (self.spec.get('list_fields') or {}):
             return self.spec['list_fields'][self._path(e[1])]
+        if e[0] == 'index' and e[1][0] == 'var' and env.get(e[1][1]) == 'arr':
+            return e[1][1]
         if self._path(e) in (self.spec.get('ignored_assign') or {}):
             return None
         if self.write_key(e) is not None:
@@ -1292,6 +1299,52 @@ class Translator:
             if p in d and d[p] in env:
                 return d[p]
         raise self.err(ln, f'assignment to `{self._path(e)}` (outside the subset: only local scalars are assigned)')
+
+    def state_call(self, e):
+        """`e` is a direct call of a translated function that takes (and returns) an array state -> its entry, else None"""
+        if isinstance(e, tuple) and e and e[0] == 'call':
+            f = self.known.get(e[1].split('::')[-1])
+            if f is not None and f.get('arr'):
+                return f
+        return None
+
+    def state_args(self, e, env):
+        f = self.state_call(e)
+        if f is None:
+            return []
+        return [a[1] for a, pk in zip(e[3], f['params']) if pk == 'arr' and a[0] == 'var']
+
+    def emit_state_call(self, e, env, ln, target):
+        """Lean text binding the results of the state-passing call `e`: the array argument is rebound to the returned state and
+        `target` (a variable name or None) to the returned value"""
+        f = self.state_call(e)
+        if len(e[3]) != len(f['params']):
+            raise self.err(ln, f'call of {e[1]} with {len(e[3])} arguments')
+        arrs, outs = [], []
+        for a, pk in zip(e[3], f['params']):
+            if pk == 'arr':
+                if a[0] != 'var' or env.get(a[1]) != 'arr':
+                    raise self.err(ln, f'call of {e[1]}: the array argument must be an array variable')
+                arrs.append(a[1])
+                outs.append(lname(a[1]))
+            else:
+                if self.state_call(a) is not None:
+                    raise self.err(ln, 'nested state-passing calls (outside the subset)')
+                outs.append(self.atom(self.coerce(self.expr(a, env, ln), pk, ln)))
+        if len(arrs) != 1:
+            raise self.err(ln, f'call of {e[1]}: exactly one array argument expected')
+        self.uses_fuel = True
+        self.calls.add(e[1].split('::')[-1])
+        call = f'{f["lean"]} fuel {" ".join(outs)}'
+        if f['ret'] == 'void':
+            if target is not None:
+                raise self.err(ln, f'{e[1]} returns nothing')
+            return f'let {lname(arrs[0])} : Array Int := {call}'
+        if target is None:
+            return f'let {lname(arrs[0])} : Array Int := ({call}).1'
+        return f'let ({lname(arrs[0])}, {lname(target)}) := {call}'
+
+    uses_fuel = False
 
     def write_key(self, e):
         """trace mode: the key of the lvalue `e` when it is a configured (recorded) element write"""
@@ -1312,12 +1365,22 @@ class Translator:
             if self.spec.get('trace') and 'acc_' not in acc and self.has_events(s):
                 acc.append('acc_')
             if k == 'assign':
+                for w in self.state_args(s[3], {**env, **{x: 'int' for x in local}}):
+                    if w not in local and w not in acc:
+                        acc.append(w)
                 v = self.lvalue(s[2], {**env, **{x: 'int' for x in local}}, s[-1])
                 if v is not None and v not in local and v not in acc:
                     acc.append(v)
             elif k == 'decl':
-                for v, _ in s[2]:
+                for v, init in s[2]:
+                    for w in self.state_args(init, {**env, **{x: 'int' for x in local}}):
+                        if w not in local and w not in acc:
+                            acc.append(w)
                     local.add(v)
+            elif k == 'callstmt':
+                for w in self.state_args(s[1], {**env, **{x: 'int' for x in local}}):
+                    if w not in local and w not in acc:
+                        acc.append(w)
             elif k == 'structdecl':
                 local.add(s[2])
             elif k == 'block':
@@ -1455,9 +1518,33 @@ class Translator:
         if not ss:
             return k(env, ind)
         s, rest = ss[0], ss[1:]
+        if s[0] == 'while' and self.spec.get('while_fuel'):
+            return self.while_fuel(s, env, lambda env2, ind2: self.stmts(rest, env2, k, ind2), ind)
         if s[0] == 'while':
             s = self.countdown(s, rest, env)
         return self.stmt(s, env, lambda env2, ind2: self.stmts(rest, env2, k, ind2), ind)
+
+    def while_fuel(self, s, env, k, ind):
+        """`while (c) BODY` -> `whileFuel fuel (fun st => decide c) (fun st => BODY; st) st` with the variables BODY assigns as
+        the state `st`: the loop as long as it ends within `fuel` iterations (then the state after `fuel` iterations)"""
+        _, cond, body, ln = s
+        pad = '  ' * ind
+        if _stmts_return([body]):
+            raise self.err(ln, '`return`/`break` inside a `while` body (outside the subset)')
+        if self.has_events(cond) or self.reads_in(cond):
+            raise self.err(ln, 'array read of a traced array in a loop condition (outside the subset)')
+        vs = self.assigned([body], env)
+        if not vs:
+            raise self.err(ln, '`while` loop whose body assigns nothing (outside the subset)')
+        tup = self.tuple_of(vs)
+        c = self.coerce(self.expr(cond, env, ln), 'prop', ln)
+        was = self.in_loop
+        self.in_loop = True
+        tb = self.stmts([body], dict(env), lambda env2, ind2: '  ' * ind2 + tup, ind + 2)
+        self.in_loop = was
+        self.uses_fuel = True
+        self.assumptions.append(f'line {ln}: the `while` loop ends within `fuel` iterations (otherwise: the state after `fuel` iterations)')
+        return (f'{pad}let {tup} := whileFuel fuel (fun {tup} => decide {c}) (fun {tup} =>\n{tb}) {tup}\n' + k(env, ind))
 
     def stmt(self, s, env, k, ind):
         """Lean term (text, each line indented by `ind`) for `s; <continuation k>`"""
@@ -1512,6 +1599,12 @@ class Translator:
                 pre = self.trace_pre([init], env, ln, pad)
                 if pre:
                     out.append(pre.rstrip('\n'))
+                if self.state_call(init) is not None:
+                    if s[1] != 'int':
+                        raise self.err(ln, 'result of a state-passing call stored in a non-integer')
+                    out.append(pad + self.emit_state_call(init, env, ln, v))
+                    env[v] = 'int'
+                    continue
                 if s[1] == 'elem':
                     if self.expr(init, env, ln)[1] not in ('elem', 'int'):
                         raise self.err(ln, 'initialiser of an element value')
@@ -1535,6 +1628,20 @@ class Translator:
             env = dict(env)
             env[s[2]] = 'list'
             return f'{pad}let {lname(s[2])} : List Int := {sl[1]}\n' + k(env, ind)
+        if kind == 'callstmt':
+            if self.state_call(s[1]) is None:
+                raise self.err(ln, f'call statement of `{s[1][1]}` (outside the subset)')
+            return pad + self.emit_state_call(s[1], env, ln, None) + '\n' + k(env, ind)
+        if kind == 'assign' and self.state_call(s[3]) is not None:
+            if s[1] != '=' or s[2][0] != 'var' or env.get(s[2][1]) != 'int':
+                raise self.err(ln, 'result of a state-passing call must be assigned to an integer variable')
+            return pad + self.emit_state_call(s[3], env, ln, s[2][1]) + '\n' + k(env, ind)
+        if kind == 'assign' and s[2][0] == 'index' and s[2][1][0] == 'var' and env.get(s[2][1][1]) == 'arr':
+            v = s[2][1][1]
+            ix = self.coerce(self.expr(s[2][2], env, ln), 'int', ln)
+            rhs = s[3] if s[1] == '=' else ('bin', s[1][0], s[2], s[3])
+            val = self.coerce(self.expr(rhs, env, ln), 'int', ln)
+            return f'{pad}let {lname(v)} : Array Int := {lname(v)}.setIfInBounds (Int.toNat ({ix})) {self.atom(val)}\n' + k(env, ind)
         if kind == 'assign' and self.write_key(s[2]) is not None:
             if s[1] != '=' or self.has_events(s[3]) or self.reads_in(s[3]) or self.has_events(list(s[2][3])) or self.reads_in(list(s[2][3])):
                 raise self.err(ln, 'trace mode: a recorded write must be a plain store of a value that reads no array')
@@ -1781,7 +1888,7 @@ class Translator:
         return out
 
     def lean_type(self, kd):
-        return {'int': 'Int', 'T': 'Int', 'bool': 'Bool', 'ptr': 'Int', 'addr': 'Int', 'u32': 'Nat', 'list': 'List Int', 'F': 'α'}[kd]
+        return {'int': 'Int', 'T': 'Int', 'bool': 'Bool', 'ptr': 'Int', 'addr': 'Int', 'u32': 'Nat', 'list': 'List Int', 'F': 'α', 'arr': 'Array Int'}[kd]
 
     def addr_of(self, e, env, ln):
         """the element offset designated by the lvalue `e` (`p[i]` or `*p` with `p` a pointer into the data)"""
@@ -1809,6 +1916,8 @@ class Translator:
                 return f'(if {c} then {self.ret(e[2], env, ln)} else {self.ret(e[3], env, ln)})'
             val = self.coerce(self.expr(e, env, ln), rk, ln)
             return f'some {self.atom(val)}'
+        if self.spec.get('arr_state'):
+            return f'({lname(self.spec["arr_state"])}, {self.coerce(self.expr(e, env, ln), rk, ln)})'
         return self.coerce(self.expr(e, env, ln), rk, ln)
 
 
@@ -2010,6 +2119,20 @@ TARGETS += [
          doc='the assignment `s = ((f[q*stride] + square(BaseType(q))) - (f[v[k]*stride] + square(BaseType(v[k])))) / 2. / (q - v[k]);` of '
              '`dist_transform` (abscissa where the parabolas rooted at `v[k]` and `q` meet), polymorphic in the scalar type; `fq`, `fv` stand '
              'for the two samples `f[q*stride]`, `f[v[k]*stride]`, `vk` for `v[k]`; the last parameter is the old value of `s` (unused)'),
+    # `_labeled.cpp`: the union-find on the label buffer. The array `data` is a state (`Array Int`: a read outside the buffer gives
+    # -1, a write outside is dropped — the conventions of `Model/C03.lean`; both are undefined behaviour in C++ and never happen
+    # in `label`), every function returns the new state (and its value); `while` loops take `fuel`
+    dict(key='uf_find', file='mahotas/_labeled.cpp', func='find', pick='generic', tparams=['It'], lean='uf_find', raw_params=True,
+         c_param_names=['data', 'i'], params=[('data', 'arr'), ('i', 'int')], ret_kind='int', arr_state='data', arr_default='-1',
+         while_fuel=True, driver_call='-',
+         doc='`find(data, i)`: the root search loop and the path compression loop; value = (the buffer afterwards, the returned root)'),
+    dict(key='uf_compress', file='mahotas/_labeled.cpp', func='compress', pick='generic', tparams=['It'], lean='uf_compress', raw_params=True,
+         c_param_names=['data', 'i'], params=[('data', 'arr'), ('i', 'int')], ret_kind='int', void=True, arr_state='data', arr_default='-1',
+         while_fuel=True, driver_call='-', doc='`compress(data, i)`: value = the buffer afterwards'),
+    dict(key='uf_join', file='mahotas/_labeled.cpp', func='join', pick='generic', tparams=['It'], lean='uf_join', raw_params=True,
+         c_param_names=['data', 'i', 'j'], params=[('data', 'arr'), ('i', 'int'), ('j', 'int')], ret_kind='int', void=True,
+         arr_state='data', arr_default='-1', while_fuel=True, driver_call='-',
+         doc='`join(data, i, j)`: value = the buffer afterwards'),
     dict(key='fast_positions', file='mahotas/_morph.cpp', func='fast_binary_dilate_erode_2d', pick='plain', lean='fast_positions',
          params=[], raw_params=True, c_param_names=['res', 'array', 'Bc', 'is_erosion'],
          extra_params=[('Nx', 'int'), ('bdims', 'list')], env_kinds={'Nx': 'int'}, ret_kind='int',
@@ -2201,6 +2324,8 @@ def translate_target(repo: Path, tg, known) -> dict:
         def fell(env2, ind2):
             if tg.get('trace') and tg.get('void'):
                 return '  ' * ind2 + 'acc_'
+            if tg.get('arr_state') and tg.get('void'):
+                return '  ' * ind2 + lname(tg['arr_state'])
             raise TranslationError(f'{where}: control reaches the end of the function without `return`')
         term = tr.stmts(body, env, fell, 1)
     if tg.get('trace'):
@@ -2210,6 +2335,8 @@ def translate_target(repo: Path, tg, known) -> dict:
         binders.append(tg.get('fbinders') or '{α : Type} [Add α] [Sub α] [Mul α] [Div α] [Neg α] [NatCast α] [IntCast α] [LT α] [DecidableLT α]')
     if tr.uses_dt:
         binders.append('(dt : DT)')
+    if tr.uses_fuel:
+        binders.append('(fuel : Nat)')
     if tg.get('trace') and tg['trace'].get('oracle'):
         oname, _, on = tg['trace']['oracle']
         binders.append(f'({oname} : {"Int → " * on}Bool)')
@@ -2218,6 +2345,10 @@ def translate_target(repo: Path, tg, known) -> dict:
     for n, kd in tg.get('extra_params', []):
         binders.append(f'({lname(n)} : {"List Int" if kd == "list" else tr.lean_type(kd)})')
     rty = 'Option Int' if tg.get('flag_const') else (f'List ({tr.etype()})' if tg.get('trace') else tr.lean_type(tg['ret_kind']))
+    if tg.get('arr_state'):
+        rty = 'Array Int' if tg.get('void') else f'Array Int × {rty}'
+        if not tr.uses_fuel:
+            raise TranslationError(f'{where}: an array-state function without a loop or call that consumes fuel is not expected here')
     doc = [f'/-- `{tg["func"]}`{" (" + tg["pick"] + ")" if tg["pick"] != "plain" else ""} — {tg["file"]} lines {f.line0}–{f.line1}, '
            f'sha256 of the token text {f.hash}.']
     if tg.get('doc'):
@@ -2314,6 +2445,12 @@ import Mahotas.Model.DType
 namespace Mahotas.Generated.C
 open Mahotas
 set_option linter.unusedVariables false
+
+/-- `while (c) s = f s` as long as it ends within `fuel` iterations (then the state after `fuel` iterations) -/
+def whileFuel {σ : Type} (fuel : Nat) (c : σ → Bool) (f : σ → σ) (s : σ) : σ :=
+  match fuel with
+  | 0 => s
+  | n + 1 => if c s then whileFuel n c f (f s) else s
 '''
 
 
@@ -2507,8 +2644,8 @@ def generate(repo: Path, outdir: Path) -> dict:
         uses_dt = '(dt : DT)' in '\n'.join(lines)
         allp = list(tg['params']) + list(tg.get('extra_params', []))
         known[tg['func'] if tg['pick'] != 'full' else tg['key']] = dict(
-            lean=tg['lean'], params=[kd for _, kd in allp], ret=tg['ret_kind'],
-            dt=('T-as-arg' if tg.get('template_call') else uses_dt), trace=bool(tg.get('trace')))
+            lean=tg['lean'], params=[kd for _, kd in allp], ret=('void' if tg.get('void') else tg['ret_kind']),
+            dt=('T-as-arg' if tg.get('template_call') else uses_dt), trace=bool(tg.get('trace')), arr=bool(tg.get('arr_state')))
         entries.append((tg['lean'], [kd for _, kd in allp], uses_dt,
                         'opt' if tg.get('flag_const') else ({'Int': 'list', 'Int × Int × Int': 'trace3'}.get(tg['trace'].get('etype'), 'trace') if tg.get('trace')
                                                             else ('list' if tg['ret_kind'] == 'list' else ('fbits' if tg['ret_kind'] == 'F' else ''))),
